@@ -1,8 +1,10 @@
 package h
 
 import (
+	"bytes"
 	"encoding/json"
 	"fmt"
+	"os"
 	"sort"
 	"strings"
 	"testing"
@@ -246,5 +248,13 @@ func genC16(t *rapid.T) *Scenario {
 	return sc
 }
 
-func TestC16(t *testing.T)       { runProp(t, "C16", genC16, checkC16) }
-func TestC16Replay(t *testing.T) { replayProp(t, "C16", checkC16) }
+func TestC16(t *testing.T) { runProp(t, "C16", genC16, checkC16) }
+func TestC16Replay(t *testing.T) {
+	if *flagCase != "" {
+		if b, err := os.ReadFile(*flagCase); err == nil && bytes.Contains(b, []byte(`"family"`)) {
+			replayProp(t, "C16", checkC16Tx)
+			return
+		}
+	}
+	replayProp(t, "C16", checkC16)
+}
